@@ -43,6 +43,8 @@ def model_circuits():
     yield "two-instances", build({"a": ("input", []), "u0.clk": ("bb_input", ["a"]), "u0.d": ("bb_input", ["a"]), "u0.q": ("bb_output", []), "u0.qn": ("bb_output", []), "w": ("buf", ["u0.q"]),
                                   "u1.clk": ("bb_input", ["a"]), "u1.d": ("bb_input", ["w"]), "u1.q": ("bb_output", []), "u1.qn": ("bb_output", []), "o": ("buf", ["u1.q"]), "p": ("buf", ["u0.qn"])},
                                  outputs=["o", "p"], name="bb2", blackboxes={"u0": ff, "u1": ff}), [ff]
+    yield "escaped-net-on-blackbox-pins", build({"\\d[0]": ("input", []), "ck": ("input", []), "u0.clk": ("bb_input", ["ck"]), "u0.d": ("bb_input", ["\\d[0]"]), "u0.q": ("bb_output", []), "u0.qn": ("bb_output", []),
+                                                  "\\q[0]": ("buf", ["u0.q"]), "o": ("not", ["\\q[0]"])}, outputs=["o", "\\q[0]"], name="escbb", blackboxes={"u0": ff}), [ff]
     yield "escaped-identifiers", build({"\\a[0]": ("input", []), "\\b.x": ("input", []), "\\n$1": ("nand", ["\\a[0]", "\\b.x"]), "o": ("not", ["\\n$1"])}, outputs=["o", "\\n$1"], name="esc"), []
     yield "output-is-input-and-gate-mix", build({"a": ("input", []), "b": ("input", []), "c": ("input", []), "n": ("nor", ["a", "b", "c"]), "x": ("xnor", ["n", "a"]), "y": ("buf", ["x"]), "i": ("not", ["y"])},
                                                 outputs=["a", "i", "n"], name="mix"), []
